@@ -237,6 +237,21 @@ def reorder_doc():
     return ("reorder0.json_solc", doc), edits
 
 
+def many_subblocks_doc():
+    """runtime blocks cut into more than ten sub-blocks by split instructions, where only a sub-block with a two-digit index can be improved
+    (log keys end in the sub-block index)"""
+    it = lambda n, v=None, **kw: dict({"begin": 1, "end": 2, "name": n, "source": 0}, **({"value": v} if v is not None else {}), **kw)
+    def blk(tag, nsplit):
+        code = [it("tag", str(tag)), it("JUMPDEST")]
+        for _ in range(nsplit):
+            code += [it("DUP3"), it("DUP3"), it("DUP3"), it("LOG1")]
+        code += [it("PUSH", "3"), it("PUSH", "4"), it("ADD"), it("SWAP1"), it("POP"), it("SWAP1"), it("POP"), it("PUSH [tag]", str(tag + 1)), it("JUMP", None, jumpType="[in]")]
+        return code
+    run = blk(1, 9) + blk(2, 10) + blk(3, 12) + [it("tag", "4"), it("JUMPDEST"), it("STOP")]
+    top = [it("PUSH", "80"), it("PUSH", "40"), it("MSTORE"), it("PUSH", "0"), it("DUP1"), it("REVERT")]
+    return ("manysub0.json_solc", {"contracts": {"e.sol:Emitter": {"asm": {".code": top, ".data": {"0": {".auxdata": "a1", ".code": run}}}}}, "version": "0.8.15+commit.e14f2714"})
+
+
 def multi_section():
     """a contract whose `.data` holds two code-bearing sub-assemblies ("0" runtime, "1" the creation code of a contract deployed with `new`)
     and a second contract with an empty `.data`: every section keeps its own instruction stream"""
